@@ -676,7 +676,8 @@ def m_encode(I, recv, a, k, node, kind):
         _raise(I, node, 'AttributeError', 'encode on non-str')
     if kr is None or not kr <= {'str'}:
         I.may_raise(node, ['AttributeError'], '.encode on a value that may not be str', (recv,))
-    I.emit('encode', node, {'recv': recv, 'encoding': enc})
+    errors = a[1] if len(a) > 1 else k.get('errors')
+    I.emit('encode', node, {'recv': recv, 'encoding': enc, 'errors': errors})
     if not codec_ok(enc):
         excs = ['LookupError']
         ke = kind_of(enc)
